@@ -376,7 +376,7 @@ FUZZ_TARGETS = {"single": (_fuzz_single, lambda c: c.pop("_changed", True), None
 def campaigns(tier, seed):
     quick = tier == "quick"
     return [
-        Campaign("composition-coverage-guided", F.fuzz_campaign("single", runs=(2500, 150000), max_len=72, dictionary=F.URL_DICT, corpus=F.URL_CORPUS), "atheris",
+        Campaign("composition-coverage-guided", F.fuzz_campaign("single", runs=(2500, 150000), max_len=72, dictionary=F.URL_DICT, corpus=F.URL_CORPUS), F.ENGINE,
                  bounds="libFuzzer over UTF-8 strings <= 72 bytes that ural's preprocessing parses and from which no redirection is inferred; normalize / fingerprint after canonicalize, options from the input length"),
         Campaign("colliding-pairs", _pairs_campaign, "hypothesis",
                  bounds="5 pair families (spelling on dirty / normalize-oriented URLs, irrelevant on clean / normalize-oriented / platform bases), 1-3 composed transformations x 12 option sets"),
